@@ -352,6 +352,15 @@ fn check(id: &str, tier: Tier) -> i32 {
         tier.name(), merged.evaluations, merged.cases, merged.nontrivial, nstates, ntrans, merged.traces,
         merged.outcomes.len(), merged.levels_completed, merged.capped, wall
     );
+    // The driver owns every source of nondeterminism, so two different observations of one case come from the
+    // subject. Alone that cannot be attributed to the property (machinery exit); next to established violations
+    // it is reported as a note and the violations stand.
+    if n_unknown > 0 && !machinery.is_empty() && machinery.iter().all(|m| m.starts_with("nondeterministic observation")) {
+        for m in machinery.iter().take(3) {
+            eprintln!("NOTE: the subject is not deterministic under a fixed input: {}", drive::trunc(m, 300));
+        }
+        machinery.clear();
+    }
     if !machinery.is_empty() {
         for m in machinery.iter().take(10) {
             eprintln!("MACHINERY: {m}");
